@@ -131,4 +131,14 @@ CHECKS = {
             {"part": "bytes", "test": "TestBytes", "quick": {"checks": 16000, "shards": 8}, "thorough": {"checks": 1000000, "shards": 16, "timeout": 3000}},
         ],
     },
+    "C19": {
+        "pkg": "c19",
+        "engine": "shellfw",
+        "technique": "property-based differential testing (rapid): generated bash hooks run by real bash+jq vs a Go reference dispatcher",
+        "level_text": "Random (context array, defined handler set) pairs executed through the real shell framework under strict mode; invocation log and exit status compared with a reference dispatcher written from the property. Search, not proof.",
+        "level_note": "Trusted: bash 5.2 and jq 1.6 of the sandbox; handler names containing a space cannot be defined in bash and are therefore never defined by the generator.",
+        "parts": [
+            {"part": "dispatch", "test": "TestDispatch", "quick": {"checks": 1200, "shards": 16, "timeout": 900}, "thorough": {"checks": 12000, "shards": 16, "timeout": 6000}},
+        ],
+    },
 }
